@@ -674,6 +674,7 @@ class AsyncFIXConnection:
             FMsg.HEARTBEAT,
             FMsg.TESTREQUEST,
             FMsg.SEQUENCERESET,
+            FMsg.XMLNONFIX,
         }
 
         async def send_gap_fill(seq_begin: int, seq_end: int):
